@@ -675,6 +675,13 @@ def _pure_value(e):
         return "pure"
     if isinstance(e, ast.Subscript) and _is_simple(e.value) and _is_simple(e.slice):
         return "pure"
+    if isinstance(e, ast.Name):
+        return "pure"               # a copy of another local
+    if isinstance(e, (ast.Compare, ast.BoolOp, ast.UnaryOp, ast.BinOp)) and not any(isinstance(n, (ast.Call, ast.Lambda, ast.IfExp, ast.NamedExpr, ast.Await,
+                                                                                                   ast.ListComp, ast.GeneratorExp, ast.SetComp, ast.DictComp))
+                                                                                     for n in ast.walk(e)):
+        if all(_is_simple(n) for n in ast.walk(e) if isinstance(n, (ast.Attribute, ast.Subscript))):
+            return "pure"           # call-free arithmetic / comparison over names, attribute paths and constants
     return None
 
 
@@ -906,6 +913,54 @@ def _fold_aliases(fn, stable_ok=True):
 
 
 # ------------------------------------------------------------------------------------------------ enumerate
+def _split_tuple_assigns(fn):
+    """`a, b = (x, y)` with plain names / constants on the right, none of them a target -> `a = x; b = y`"""
+    n_done = 0
+    for node in ast.walk(fn):
+        for fld in ("body", "orelse", "finalbody"):
+            blk = getattr(node, fld, None)
+            if not isinstance(blk, list):
+                continue
+            out = []
+            for st in blk:
+                if (isinstance(st, ast.Assign) and len(st.targets) == 1 and isinstance(st.targets[0], ast.Tuple) and isinstance(st.value, ast.Tuple)
+                        and len(st.targets[0].elts) == len(st.value.elts)
+                        and all(isinstance(t, ast.Name) for t in st.targets[0].elts)
+                        and all(isinstance(v, (ast.Name, ast.Constant)) for v in st.value.elts)
+                        and not ({t.id for t in st.targets[0].elts} & {v.id for v in st.value.elts if isinstance(v, ast.Name)})
+                        and len({t.id for t in st.targets[0].elts}) == len(st.targets[0].elts)):
+                    for t, v in zip(st.targets[0].elts, st.value.elts):
+                        out.append(ast.copy_location(ast.Assign(targets=[t], value=v), st))
+                    n_done += 1
+                else:
+                    out.append(st)
+            blk[:] = out
+    return n_done
+
+
+def _unproduct(fn):
+    """`for x, y in itertools.product(A, B): BODY` -> `for x in A: for y in B: BODY` (A, B simple and not modified in the body)"""
+    n_done = 0
+    for lp in ast.walk(fn):
+        if not isinstance(lp, ast.For):
+            continue
+        it = lp.iter
+        if not (isinstance(it, ast.Call) and ast.unparse(it.func) in ("itertools.product", "product") and len(it.args) == 2 and not it.keywords
+                and isinstance(lp.target, ast.Tuple) and len(lp.target.elts) == 2 and all(isinstance(e, ast.Name) for e in lp.target.elts)
+                and all(_is_simple(a) and not isinstance(a, ast.Constant) for a in it.args) and not lp.orelse):
+            continue
+        body_nodes = [n for st in lp.body for n in ast.walk(st)]
+        if any(isinstance(n, (ast.Break, ast.Continue)) for n in body_nodes):
+            continue
+        txts = {ast.unparse(a) for a in it.args}
+        if any(isinstance(n, ast.Call) and isinstance(n.func, ast.Attribute) and ast.unparse(n.func.value) in txts and n.func.attr in _MUTATORS for n in body_nodes):
+            continue
+        inner = ast.For(target=lp.target.elts[1], iter=it.args[1], body=lp.body, orelse=[], lineno=lp.lineno, col_offset=lp.col_offset)
+        lp.target, lp.iter, lp.body = lp.target.elts[0], it.args[0], [inner]
+        n_done += 1
+    return n_done
+
+
 def _unenumerate(fn):
     n_done = 0
     for lp in ast.walk(fn):
@@ -1240,6 +1295,8 @@ def normalise(tree, cnt):
     for fn in ast.walk(tree):
         if isinstance(fn, (ast.FunctionDef, ast.AsyncFunctionDef)):
             n_en += _unenumerate(fn)
+            n_en += _unproduct(fn)
+            _split_tuple_assigns(fn)
             k = _unroll_literal_loops(fn, tables)
             if k:
                 _ConstGetattr().visit(fn)
